@@ -13,7 +13,7 @@ from ..effects import effects_of
 from ..flow import flow_of
 from ..index import Def, Repo, attr_chain, public_functions, walk_own
 from ..runner import Ctx, exception, rule
-from .runtime import facts_at
+from .runtime import conjuncts, facts_at
 from .spec import ARRAY_ATTRS
 
 GB = {f"{A.OPS}.general_blockwise", f"{A.OPS}._general_blockwise"}
@@ -356,6 +356,56 @@ def align(ctx: Ctx) -> None:
                 used = any(s.node == un for s in sites)
         ok = under and rebinds and whole and used
     ctx.ob(bw, uc[0] if uc else None, ok, "blockwise(align_arrays=True) unifies the chunks of all operands and builds the operation from the unified arrays", sel="sanitizer:blockwise")
+    # the unifier itself: an operand whose chunks differ from the unified chunks is rechunked;
+    # it is passed through unchanged only when they are equal (or it has no index)
+    uf = repo.get(f"{A.OPS}.unify_chunks")
+    ufl, ucfg = flow_of(repo, uf), cfg_of(uf)
+    n_app = 0
+    for c in uf.own_nodes():
+        if not (isinstance(c, ast.Call) and isinstance(c.func, ast.Attribute) and c.func.attr == "append" and len(c.args) == 1 and ucfg.has(c) and ucfg.nodes[ucfg.node_of(c)].loops):
+            continue
+        lp = ucfg.nodes[ucfg.nodes[ucfg.node_of(c)].loops[-1]].stmt
+        if not isinstance(lp, ast.For):
+            continue
+        lvars = {x.id for x in ast.walk(lp.target) if isinstance(x, ast.Name)}
+        arg = c.args[0]
+        is_rechunk = isinstance(arg, ast.Call) and any(t.kind == "def" and t.ref.name == "rechunk" for t in repo.resolve_call(arg, uf, uf.module))
+        is_pass = isinstance(arg, ast.Name) and arg.id in lvars
+        if not (is_rechunk or is_pass):
+            continue
+        facts = [(t, pol) for t, pol, b in ucfg.branch_conditions(ucfg.node_of(c)) if ucfg.in_loop(b, ucfg.nodes[ucfg.node_of(c)].loops[-1])]
+
+        def differs(t):
+            return isinstance(t, ast.Compare) and len(t.ops) == 1 and isinstance(t.ops[0], (ast.NotEq, ast.Eq)) and any(isinstance(x, ast.Attribute) and x.attr == "chunks" and isinstance(x.value, ast.Name) and x.value.id in lvars for x in (t.left, t.comparators[0]))
+
+        ok = False
+        for t, pol in facts:
+            for fact, fp in conjuncts(t, pol):
+                if differs(fact):
+                    ne = isinstance(fact.ops[0], ast.NotEq) == fp  # "chunks differ" holds here
+                    if is_rechunk and ne:
+                        ok = True
+                    if is_pass and not ne:
+                        ok = True
+                if is_pass and isinstance(fact, ast.Compare) and isinstance(fact.ops[0], ast.Is) and fp and isinstance(fact.comparators[0], ast.Constant) and fact.comparators[0].value is None:
+                    ok = True  # no index: not aligned at all
+            # else-branch of `differs and <regular>`: the conjunction is false
+            if is_pass and not pol and isinstance(t, ast.BoolOp) and isinstance(t.op, ast.And) and any(differs(v) and isinstance(v.ops[0], ast.NotEq) for v in t.values):
+                ok = True
+        if is_pass and not any(differs(f_) or (isinstance(t, ast.BoolOp) and any(differs(v) for v in t.values)) for t, pol in facts for f_, _ in conjuncts(t, pol)) and not ok:
+            # pass-through that does not depend on the chunk comparison at all (e.g. the early
+            # `ind is None` bookkeeping loop): not part of the alignment decision
+            continue
+        n_app += 1
+        ctx.ob(
+            uf,
+            c,
+            ok,
+            f"unify_chunks: `{unparse(c, 50)}` — an operand is rechunked when its chunks differ from the unified chunks and passed through only when they agree"
+            + ("" if ok else " — the condition is the other way round (or missing): differently chunked operands reach the block function unaligned"),
+            sel=f"sanitizer:unify:{'rechunk' if is_rechunk else 'pass'}",
+        )
+    ctx.need(n_app >= 2, "unify_chunks: the rechunk / pass-through decision was not found")
     al = bw.node.args.kwonlyargs
     dflt = None
     for a_, d_ in zip(bw.node.args.kwonlyargs, bw.node.args.kw_defaults):
